@@ -86,7 +86,7 @@ func (a c05Answer) String() string {
 	return core.Abbrev(oracle.Text(a.val), 160)
 }
 
-func c05Resolve(kind string, root interface{}, ref spec.Ref, opts *spec.ExpandOptions, withBase bool) (ans c05Answer) {
+func c05Resolve(kind string, root interface{}, ref *spec.Ref, opts *spec.ExpandOptions, withBase bool) (ans c05Answer) {
 	defer func() {
 		if r := recover(); r != nil {
 			ans.pan = fmt.Sprint(r)
@@ -97,33 +97,33 @@ func c05Resolve(kind string, root interface{}, ref spec.Ref, opts *spec.ExpandOp
 	switch kind {
 	case "schema":
 		if withBase {
-			v, err = spec.ResolveRefWithBase(root, &ref, opts)
+			v, err = spec.ResolveRefWithBase(root, ref, opts)
 		} else {
-			v, err = spec.ResolveRef(root, &ref)
+			v, err = spec.ResolveRef(root, ref)
 		}
 	case "parameter":
 		if withBase {
-			v, err = spec.ResolveParameterWithBase(root, ref, opts)
+			v, err = spec.ResolveParameterWithBase(root, *ref, opts)
 		} else {
-			v, err = spec.ResolveParameter(root, ref)
+			v, err = spec.ResolveParameter(root, *ref)
 		}
 	case "response":
 		if withBase {
-			v, err = spec.ResolveResponseWithBase(root, ref, opts)
+			v, err = spec.ResolveResponseWithBase(root, *ref, opts)
 		} else {
-			v, err = spec.ResolveResponse(root, ref)
+			v, err = spec.ResolveResponse(root, *ref)
 		}
 	case "pathItem":
 		if withBase {
-			v, err = spec.ResolvePathItemWithBase(root, ref, opts)
+			v, err = spec.ResolvePathItemWithBase(root, *ref, opts)
 		} else {
-			v, err = spec.ResolvePathItem(root, ref, opts)
+			v, err = spec.ResolvePathItem(root, *ref, opts)
 		}
 	case "items":
 		if withBase {
-			v, err = spec.ResolveItemsWithBase(root, ref, opts)
+			v, err = spec.ResolveItemsWithBase(root, *ref, opts)
 		} else {
-			v, err = spec.ResolveItems(root, ref, opts)
+			v, err = spec.ResolveItems(root, *ref, opts)
 		}
 	}
 	if err != nil {
@@ -280,8 +280,13 @@ func c05Run(env *core.Env, idx int) core.CaseResult {
 			if !rp.withBase && (t.kind == "pathItem" || t.kind == "items") {
 				opts = &spec.ExpandOptions{PathLoader: ld.load, ContinueOnError: flags == 1 || flags == 4} // these two always take options
 			}
-			got := c05Resolve(t.kind, root, ref, opts, rp.withBase)
+			refBefore := ref.String()
+			got := c05Resolve(t.kind, root, &ref, opts, rp.withBase)
 			res.Evals++
+			if after := ref.String(); after != refBefore {
+				res.Violate("resolve-modified-the-reference-it-was-given "+t.kind+" root="+rp.name, fmt.Sprintf("%q became %q", refBefore, after), map[string]interface{}{"root": w.Root, "documents": w.Docs, "ref": text, "kind": t.kind, "root_representation": rp.name})
+				ref, _ = spec.NewRef(text)
+			}
 			res.Count("root."+rp.name, 1)
 			answers[rp.name] = got
 			wit := map[string]interface{}{"root": w.Root, "documents": w.Docs, "ref": text, "kind": t.kind, "root_representation": rp.name, "expected": want.String(), "got": got.String()}
